@@ -237,10 +237,12 @@ func (s *ServerSession) doMsg(stream *Stream) error {
 	case base.RtmpTypeIdAudio:
 		fallthrough
 	case base.RtmpTypeIdVideo:
-		if s.sessionStat.BaseType() != base.SessionBaseTypePubStr {
+		// 只有publish成功之后才会有avObserver，在此之前收到音视频数据（包括aggregate中的子消息）直接关闭连接
+		if s.sessionStat.BaseType() != base.SessionBaseTypePubStr || s.avObserver == nil {
 			err = nazaerrors.Wrap(base.ErrRtmpUnexpectedMsg)
+		} else {
+			s.avObserver.OnReadRtmpAvMsg(stream.toAvMsg())
 		}
-		s.avObserver.OnReadRtmpAvMsg(stream.toAvMsg())
 	default:
 		Log.Warnf("[%s] read unknown message. stream=%s, msg=%s", s.UniqueKey(), stream.toDebugString(), hex.EncodeToString(refForDebugLog))
 
